@@ -40,7 +40,7 @@ var registryAddrs = []string{"example.com/ns/r0/aws", "ns/r0/aws", "テラフォ
 var subPool = []string{"", "modules/a", "modules/b", "x", "modules/a/nested"}
 var oddSubPool = []string{"with space", "mod@1.0", "ünï", "a+b", "per%cent"}
 
-var offered = []string{"0.1.0", "1.0.0", "1.0.1", "1.1.0", "1.2.3", "2.0.0", "2.0.0-beta", "2.0.0-rc1", "2.1.0-alpha", "3.0.0", "1.10.0", "1.9.9"}
+var offered = []string{"1.4.0+build5", "0.1.0", "1.0.0", "1.0.1", "1.1.0", "1.2.3", "2.0.0", "2.0.0-beta", "2.0.0-rc1", "2.1.0-alpha", "3.0.0", "1.10.0", "1.9.9"}
 var constraints = []string{"", "", "released", ">= 1.0.0", "~> 1.0", "~> 1.0.0", "< 2.0.0", ">= 1.0.0, < 1.5.0", "1.0.0", "!= 3.0.0", ">= 2.0.0-beta", "> 5.0.0", "~> 2.0", "<= 1.2.3", "2.0.0-rc1"}
 
 func withSub(addr, sub string) string {
